@@ -438,6 +438,19 @@ class Interp:
                     return final
                 return run_arm(st.body, True, env.fork()) + run_arm(st.orelse, False, env.fork())
             if isinstance(st, ast.For):
+                it_ = st.iter
+                if isinstance(it_, (ast.Tuple, ast.List)) and not st.orelse and len(it_.elts) <= 8 and not any(isinstance(x, ast.Starred) for x in it_.elts) \
+                        and not any(isinstance(x, (ast.Break, ast.Continue)) for b in st.body for x in ast.walk(b)):
+                    # a loop over a literal sequence is its body written out once per element
+                    unrolled: List[ast.stmt] = []
+                    for el in it_.elts:
+                        asg = ast.Assign(targets=[st.target], value=el, lineno=st.lineno)
+                        ast.copy_location(asg, st)
+                        ast.fix_missing_locations(asg)
+                        unrolled += [asg] + list(st.body)
+                    stmts = unrolled + list(stmts[i:])
+                    i = 0
+                    continue
                 self.exec_for(fi, st, env)
                 continue
             if isinstance(st, ast.Try):
